@@ -115,7 +115,8 @@ fn main() -> ExitCode {
                 return ExitCode::from(2);
             }
 
-            let config_path = args[1].to_ascii_lowercase();
+            // the path as it was typed: only the option names are matched in lower case
+            let config_path = args[1].clone();
             config = match Config::from(PathBuf::from(&config_path)) {
                 Ok(cnf) => cnf,
                 Err(err) => {
